@@ -87,7 +87,71 @@ func runC04(r *simrt.Run, tier Tier) Outcome {
 		ri := r.Choose(len(prog.Rules), "c04.rule")
 		rule := prog.Rules[ri]
 		body := append([]Lit{}, rule.Body...)
-		switch r.Choose(8, "c04.kind") {
+		switch r.Choose(10, "c04.kind") {
+		case 8: // comparison whose operand is a function of a variable bound later, or never
+			bound, _, _ := BindingClosure(body)
+			var ints []string
+			for v := range bound {
+				if varHasType(prog, rule, v, TInt) {
+					ints = append(ints, v)
+				}
+			}
+			sortStrings(ints)
+			inner := V(freshVar())
+			lhs := C(IntV(3))
+			if len(ints) > 0 {
+				lhs = V(ints[r.Choose(len(ints), "c04.fncmp.lhs")])
+				if r.Bool("c04.fncmp.boundinner") {
+					inner = V(ints[r.Choose(len(ints), "c04.fncmp.inner")])
+				}
+			}
+			nl := Lit{K: []LKind{LLt, LLe, LGt, LGe}[r.Choose(4, "c04.fncmp.op")], Args: []Expr{Fn("fn:plus", inner, C(IntV(1))), lhs}}
+			pos := r.Choose(len(body)+1, "c04.fncmp.pos")
+			body = append(body[:pos:pos], append([]Lit{nl}, body[pos:]...)...)
+			pertDesc = append(pertDesc, fmt.Sprintf("rule %d: added %s at position %d", ri, nl.Src(), pos))
+		case 9: // two negated atoms in front: one with a variable nothing binds, one that becomes ready later
+			ls := lower(rule)
+			if len(ls) > 0 {
+				bound, _, _ := BindingClosure(body)
+				var bvs []string
+				for v := range bound {
+					bvs = append(bvs, v)
+				}
+				sortStrings(bvs)
+				mk := func(useFresh bool) (Lit, bool) {
+					q := ls[r.Choose(len(ls), "c04.twoneg.pred")]
+					if len(q.Cols) == 0 {
+						return Lit{}, false
+					}
+					var args []Expr
+					for _, t := range q.Cols {
+						var pick string
+						for _, v := range bvs {
+							if varHasType(prog, rule, v, t) {
+								pick = v
+							}
+						}
+						switch {
+						case useFresh && len(args) == 0:
+							args = append(args, V(freshVar()))
+						case pick != "":
+							args = append(args, V(pick))
+						default:
+							args = append(args, V("_"))
+						}
+					}
+					return Lit{K: LNeg, Pred: q.Name, Args: args}, true
+				}
+				a, ok1 := mk(r.Bool("c04.twoneg.fresh"))
+				b, ok2 := mk(false)
+				if ok1 && ok2 {
+					if r.Bool("c04.twoneg.swap") {
+						a, b = b, a
+					}
+					body = append([]Lit{a, b}, body...)
+					pertDesc = append(pertDesc, fmt.Sprintf("rule %d: put %s, %s in front", ri, a.Src(), b.Src()))
+				}
+			}
 		case 0: // drop a positive atom
 			var pos []int
 			for i, l := range body {
